@@ -35,6 +35,18 @@ func SchemaForType(item any) (Schema, error) {
 	return schemaForType(typ)
 }
 
+// schemaBuilder carries the struct types whose schema is currently being
+// generated, so that a self-referential type yields an error instead of
+// unbounded recursion.
+type schemaBuilder struct {
+	inProgress []reflect.Type
+}
+
+func schemaForType(typ reflect.Type) (Schema, error) {
+	var b schemaBuilder
+	return b.schemaForType(typ)
+}
+
 func isInSchemaRegistry(typ reflect.Type) (Schema, bool) {
 	schemaRegistryMutex.RLock()
 	defer schemaRegistryMutex.RUnlock()
@@ -42,7 +54,7 @@ func isInSchemaRegistry(typ reflect.Type) (Schema, bool) {
 	return s, ok
 }
 
-func schemaForType(typ reflect.Type) (Schema, error) {
+func (b *schemaBuilder) schemaForType(typ reflect.Type) (Schema, error) {
 	if s, ok := isInSchemaRegistry(typ); ok {
 		return s, nil
 	}
@@ -59,14 +71,14 @@ func schemaForType(typ reflect.Type) (Schema, error) {
 	case reflect.String:
 		return Schema{Type: "string"}, nil
 	case reflect.Struct:
-		return schemaForStruct(typ)
+		return b.schemaForStruct(typ)
 	case reflect.Array, reflect.Slice:
-		return schemaForArray(typ)
+		return b.schemaForArray(typ)
 	case reflect.Map:
-		return schemaForMap(typ)
+		return b.schemaForMap(typ)
 	case reflect.Pointer:
 		// If this is a pointer to a basic type then we don't need to wrap in a union as all the basic types are nullable.
-		underlying, err := schemaForType(typ.Elem())
+		underlying, err := b.schemaForType(typ.Elem())
 		if err != nil {
 			return Schema{}, fmt.Errorf("getting underlying schema for pointer: %w", err)
 		}
@@ -89,7 +101,15 @@ func nullableSchema(s Schema) Schema {
 	}
 }
 
-func schemaForStruct(typ reflect.Type) (Schema, error) {
+func (b *schemaBuilder) schemaForStruct(typ reflect.Type) (Schema, error) {
+	for _, t := range b.inProgress {
+		if t == typ {
+			return Schema{}, fmt.Errorf("recursive type %s not supported", typ)
+		}
+	}
+	b.inProgress = append(b.inProgress, typ)
+	defer func() { b.inProgress = b.inProgress[:len(b.inProgress)-1] }()
+
 	fields := make([]SchemaRecordField, 0, typ.NumField())
 	for i := 0; i < typ.NumField(); i++ {
 		field := typ.Field(i)
@@ -98,7 +118,7 @@ func schemaForStruct(typ reflect.Type) (Schema, error) {
 			continue
 		}
 
-		s, err := schemaForType(field.Type)
+		s, err := b.schemaForType(field.Type)
 		if err != nil {
 			return Schema{}, fmt.Errorf("getting schema for field %s: %w", name, err)
 		}
@@ -127,7 +147,7 @@ func schemaForStruct(typ reflect.Type) (Schema, error) {
 
 var namespaceReplacer = strings.NewReplacer("/", ".", "-", "_")
 
-func schemaForArray(typ reflect.Type) (Schema, error) {
+func (b *schemaBuilder) schemaForArray(typ reflect.Type) (Schema, error) {
 	elem := typ.Elem()
 	if elem.Kind() == reflect.Uint8 {
 		return Schema{
@@ -135,7 +155,7 @@ func schemaForArray(typ reflect.Type) (Schema, error) {
 		}, nil
 	}
 
-	s, err := schemaForType(elem)
+	s, err := b.schemaForType(elem)
 	if err != nil {
 		return Schema{}, fmt.Errorf("building array schema: %w", err)
 	}
@@ -148,8 +168,8 @@ func schemaForArray(typ reflect.Type) (Schema, error) {
 	}, nil
 }
 
-func schemaForMap(typ reflect.Type) (Schema, error) {
-	s, err := schemaForType(typ.Elem())
+func (b *schemaBuilder) schemaForMap(typ reflect.Type) (Schema, error) {
+	s, err := b.schemaForType(typ.Elem())
 	if err != nil {
 		return Schema{}, err
 	}
